@@ -218,6 +218,8 @@ namespace
             {
                 op["op"] = "addsol";
                 op["exact"] = g.chance(0.5);
+                // approximate solutions: -1 is the library's "difference unknown" default, 0 a degenerate but legal value
+                op["diff"] = g.pick(std::vector<double>{-1.0, 0.0, 0.25, 1.0});
             }
             else
             {
@@ -763,7 +765,7 @@ sim::CaseResult PtcSim::run(const sim::Options &o, const Json &plan)
             bool exact = op.getb("exact");
             if (exact)
                 M.exactPending = true;
-            pdef->addSolutionPath(path, !exact, exact ? 0.0 : 1.0, "sim");
+            pdef->addSolutionPath(path, !exact, exact ? 0.0 : op.getd("diff", 1.0), "sim");
             if (exact)
             {
                 M.exactSol = true;
